@@ -62,7 +62,8 @@ def run(tier="quick", seed=0, use_cache=True):
         "its caller none before the sibling is stored as a child. NULL-RESULT: the result of a repository function that has a `return NULL` path (a node that cannot be activated, an empty tree) is tested before it is dereferenced or passed to a NULL-intolerant API, on every path; SHIFT-BOUNDS: every memmove within one keys / values / data array reads only entries below the length the node had on entry (affine offsets, the net len-- / ++len effect on the path taken into account) (the ALLOC-CHECKED dataflow of C17 over the inferred set of may-return-NULL functions). Decides the local half of 'exactly one "
         "reference per stored object / no leak on any path'; ownership of "
         "node fields across functions and out-of-bounds accesses need a "
-        "sanitizer run and are not decided.")
+        "sanitizer run and are not decided."
+        " SHIFT-BOUNDS: in-place memmove shifts read only entries the node held. REAL-TYPE as in C10. USE-AFTER-RELEASE: a local that only borrows a container field's reference is not used after that reference was released.")
     res.assumptions = [
         "table of new-reference / stealing CPython APIs in sa/rules/refs.py",
         "module initialisation is out of scope",
